@@ -99,3 +99,84 @@ pub fn locate(ptr: *const u8, len: usize) -> Option<(u64, usize, usize)> {
         None
     }
 }
+
+/// Hooks for the process-wide live-chunk counters: a harness that controls
+/// thread interleavings can route every access to them through itself.
+pub trait CounterHooks: Sync {
+    /// Whether the calling thread is under the harness's control.
+    fn active(&self) -> bool;
+    /// Performs a load on behalf of the calling thread.
+    fn load(&self, addr: usize, real: &std::sync::atomic::AtomicUsize) -> usize;
+    /// Performs a store on behalf of the calling thread.
+    fn store(&self, addr: usize, real: &std::sync::atomic::AtomicUsize, value: usize);
+    /// Performs an atomic add (`delta` may be negative) and returns the previous value.
+    fn fetch_add(&self, addr: usize, real: &std::sync::atomic::AtomicUsize, delta: isize) -> usize;
+}
+
+static COUNTER_HOOKS: std::sync::OnceLock<&'static dyn CounterHooks> = std::sync::OnceLock::new();
+
+/// Registers the process-wide counter hooks (once).
+pub fn register_counter_hooks(hooks: &'static dyn CounterHooks) {
+    assert!(COUNTER_HOOKS.set(hooks).is_ok(), "hooks already registered");
+}
+
+#[inline]
+fn counter_hooks() -> Option<&'static dyn CounterHooks> {
+    match COUNTER_HOOKS.get() {
+        Some(hooks) if hooks.active() => Some(*hooks),
+        _ => None,
+    }
+}
+
+/// Stand-in for [`std::sync::atomic::AtomicUsize`] (only what the live-chunk
+/// counters use); passes straight through unless hooks are registered and
+/// active for the calling thread.
+#[derive(Debug)]
+pub struct AtomicUsize {
+    inner: std::sync::atomic::AtomicUsize,
+}
+
+impl AtomicUsize {
+    /// See [`std::sync::atomic::AtomicUsize::new`].
+    pub const fn new(value: usize) -> Self {
+        Self {
+            inner: std::sync::atomic::AtomicUsize::new(value),
+        }
+    }
+
+    /// See [`std::sync::atomic::AtomicUsize::load`].
+    #[inline]
+    pub fn load(&self, order: std::sync::atomic::Ordering) -> usize {
+        match counter_hooks() {
+            Some(hooks) => hooks.load(self as *const _ as usize, &self.inner),
+            None => self.inner.load(order),
+        }
+    }
+
+    /// See [`std::sync::atomic::AtomicUsize::store`].
+    #[inline]
+    pub fn store(&self, value: usize, order: std::sync::atomic::Ordering) {
+        match counter_hooks() {
+            Some(hooks) => hooks.store(self as *const _ as usize, &self.inner, value),
+            None => self.inner.store(value, order),
+        }
+    }
+
+    /// See [`std::sync::atomic::AtomicUsize::fetch_add`].
+    #[inline]
+    pub fn fetch_add(&self, value: usize, order: std::sync::atomic::Ordering) -> usize {
+        match counter_hooks() {
+            Some(hooks) => hooks.fetch_add(self as *const _ as usize, &self.inner, value as isize),
+            None => self.inner.fetch_add(value, order),
+        }
+    }
+
+    /// See [`std::sync::atomic::AtomicUsize::fetch_sub`].
+    #[inline]
+    pub fn fetch_sub(&self, value: usize, order: std::sync::atomic::Ordering) -> usize {
+        match counter_hooks() {
+            Some(hooks) => hooks.fetch_add(self as *const _ as usize, &self.inner, -(value as isize)),
+            None => self.inner.fetch_sub(value, order),
+        }
+    }
+}
